@@ -189,6 +189,9 @@ def _close(x, y):
 
 
 # ------------------------------------------------------------------------------------------------ family 1
+REFETCH = [0]        # how the row is fetched the second time: 0 select_by_sql, 1 get_for_update(), 2 select().for_update()
+
+
 def _reload(flags, rest_r, rest_w, noflush, L, N, change, lf=1.5, nf=2.5):
     """flags: {name: (read?, assigned?)} for the attributes under test; all other attributes: (rest_r, rest_w).
     L: loaded ints (a, x, v, n is NULL, n, g is NULL); N: assigned (a, x, v, n := None, n, g := None);
@@ -214,7 +217,7 @@ def _reload(flags, rest_r, rest_w, noflush, L, N, change, lf=1.5, nf=2.5):
     st = {'loads': 0}
 
     def responder(sql, args):
-        table, cols = K.select_columns(sql)
+        table, cols = _columns(sql)                  # (accepts the aliased select list of a query: "e"."id")
         if table == G._table_: return [(args[0],)], [('id',)], -1
         if table == E._table_:
             st['loads'] += 1
@@ -249,6 +252,8 @@ def _reload(flags, rest_r, rest_w, noflush, L, N, change, lf=1.5, nf=2.5):
             try:
                 if noflush:
                     with cache.flush_disabled(): E.select_by_sql('SELECT * FROM "E"', {}, {})
+                elif REFETCH[0] == 1: E.get_for_update(id=1)                 # the row is read again by a LOCKING fetch
+                elif REFETCH[0] == 2: E.select().for_update()[:]
                 else: E.select_by_sql('SELECT * FROM "E"', {}, {})
             finally:
                 after = {n: obj._vals_.get(e.attr[n], K) for n in ATTRS}
@@ -299,6 +304,17 @@ def reload_a(f: B2, rest_r: bool, rest_w: bool, noflush: bool, L: LT, N: NT, c: 
     post: _
     """
     return _reload({'a': f}, rest_r, rest_w, noflush, L, N, {'a': c})
+
+
+def reload_a_locked(f: B2, rest_r: bool, rest_w: bool, L: LT, N: NT, c: int, query: bool) -> bool:
+    """
+    pre: _pre(L, N) and LO <= c <= HI
+    post: _
+    """
+    # the second fetch takes a row lock: a lock taken NOW says nothing about what happened since the first read
+    REFETCH[0] = 2 if query else 1
+    try: return _reload({'a': f}, rest_r, rest_w, False, L, N, {'a': c})
+    finally: REFETCH[0] = 0
 
 
 def reload_x(f: B2, rest_r: bool, rest_w: bool, noflush: bool, L: LT, N: NT, c: int) -> bool:
@@ -594,7 +610,7 @@ def sub_query_read(via: int, read_gpa: bool, L: Tuple[int, int, int], which: int
     return _sub(via, read_gpa, L, which, c)
 
 
-RELOAD = ['reload_a', 'reload_f', 'reload_f_noflush', 'reload_x', 'reload_v', 'reload_n', 'reload_n_noflush', 'reload_g', 'reload_g_noflush', 'reload_g_pending',
+RELOAD = ['reload_a', 'reload_a_locked', 'reload_f', 'reload_f_noflush', 'reload_x', 'reload_v', 'reload_n', 'reload_n_noflush', 'reload_g', 'reload_g_noflush', 'reload_g_pending',
           'reload_two', 'reload_two_noflush']
 LINKS = ['o2o_relink_tracked', 'o2o_relink_untracked', 'o2o_none_then_linked']
 HARNESSES = RELOAD + LINKS + ['sub_query_read']
